@@ -328,6 +328,9 @@ def run_scenario(sc):
         holder_net["net"] = net
         consumers = {}
         results = {}
+        if sc.get("obs_cancel"):
+            import closeobs
+            closeobs.install_cancel_observer(loop)
         net.fault_counter["on"] = True
         PROBE["net"] = None
         if sc.get("probe"):
@@ -561,7 +564,18 @@ def run_scenario(sc):
                         net.ev("stop_call", c=name)
                         before = set(asyncio.all_tasks(loop))
                         try:
-                            await asyncio.wait_for(c.stop(), timeout=op[1] if len(op) > 1 else 600.0)
+                            import closeobs
+                            res["stop_tasks"] = closeobs.snapshot_consumer(c)
+                            _mark = len(getattr(loop, "_cancel_log", []))
+                            _owners = [c._coordinator, c._fetcher, c._client]
+                        except Exception as e:  # noqa: BLE001
+                            res["stop_tasks"] = {"error": repr(e)}
+                        try:
+                            try:
+                                await asyncio.wait_for(c.stop(), timeout=op[1] if len(op) > 1 else 600.0)
+                            finally:
+                                if "error" not in res["stop_tasks"]:
+                                    res["stop_tasks"] = closeobs.join_time_states(res["stop_tasks"], loop, _mark, _owners)
                             res["stop"] = {"t": loop.time() - t0, "returned": True}
                         except asyncio.TimeoutError:
                             res["stop"] = {"t": loop.time() - t0, "returned": False}
